@@ -114,6 +114,9 @@ func (a CommandBasedAuthorizer) evaluate() bool {
 			if regexish[len(regexish)-1] != regexEndByte {
 				regexish = regexish + regexEndStr
 			}
+			// the anchors above bind only to the first and last branch of an alternation such as a|b;
+			// group the whole expression so that it has to match the entire argument string
+			regexish = regexStartStr + "(?:" + regexish + ")" + regexEndStr
 			if matched, err := regexp.MatchString(regexish, a.body.Args.CommandArgsNoLE()); err != nil {
 				a.Errorf(a.ctx, "bad regex detected; %v", err)
 				return false
